@@ -85,11 +85,11 @@ ASSUMPTIONS = [
 BOUNDS = {
     'quick': {'numerals': 'every integer (unbounded) for each numeral of one keyword at a time, other words fixed',
               'keywords': 'see KEYWORDS (units); lists: as-path 1-3 ASNs and the bare form, label 1-2, community 1 (pair and 32-bit form), '
-                          'flow operators =, >&<, [ = = ]',
+                          'flow operators =, >&<, [ = = ]; sr-policy (announce ipv4 sr-policy): distinguisher + color, preference + priority, binding-sid mpls, segment-list weight + type-a label',
               'sessions': '4 of {iBGP,eBGP} x peer ASN4 x ADD-PATH per keyword, all 8 for as-path / aggregator / path-information / local-preference; '
                           'flow and vpls: {iBGP,eBGP} x ASN4'},
     'thorough': {'numerals': 'same', 'keywords': 'same + as-path of 3, two-element community list, origin / l2info extended communities, dotted path-information, '
-                                                 'icmp-code, port list, destination mask, two pairs of keywords (med + local-preference, label + community), and 13 '
+                                                 'icmp-code, port list, destination mask, sr-policy type-c algorithm + sid and type-b SRv6 endpoint behaviour with its four lengths, two pairs of keywords (med + local-preference, label + community), and 13 '
                                                  'keywords through the `announce ipv4 <safi>` entry point (4 of them already in quick)',
                  'sessions': 'all 8 for every unicast/labelled/vpn keyword'},
 }
@@ -98,7 +98,8 @@ OUTSIDE = [
     'hexadecimal forms 0x.., the legacy "65000L" suffix) are covered by a few concrete samples only (unit lexical/*)',
     'IP address literals (prefix, next-hop, originator-id, cluster-list, aggregator address, RD/ext-community address part, flow prefixes) are concrete samples',
     'rate-limit is an IEEE float on the wire: concrete samples at its boundaries, not a symbolic numeral',
-    'split /N (not a wire value; generates 2^(N-mask) routes), watchdog, name, withdraw, attribute [ generic hex ], bgp-prefix-sid-srv6, sr-policy, mup, mvpn, '
+    'split /N (not a wire value; generates 2^(N-mask) routes), watchdog, name, withdraw, attribute [ generic hex ], bgp-prefix-sid-srv6, mup, mvpn, sr-policy beyond the numerals of the units srpolicy/* (its names and addresses, segment types d..k, IPv6 policies, '
+    'words after the last sr-policy keyword, which the parser leaves unread), '
     'flow IPv6 offsets, interface-set, redirect to an IP next hop, tcp-flags / fragment names',
     'list LENGTHS (255/256 communities, AS_PATH longer than 255 ASNs) — property C09/C01; withdrawals',
 ]
@@ -793,6 +794,118 @@ for _n in ('local-preference', 'as-path-1', 'aggregator', 'community-32bit', 'la
     announce(_n)
 announce('label', 'nlri-mpls')
 announce('rd', 'mpls-vpn')
+
+
+# ----------------------------------------------------------------------------- SR Policy (RFC 9830, RFC 9831) through `announce ipv4 sr-policy ...`
+SRP = ['sr-policy', 'distinguisher', '7', 'color', '9', 'endpoint', '192.0.2.1', 'next-hop', '192.0.2.2']
+SRPK = dict(section='ipv4', fam=('ipv4 sr-policy',), famcode=(1, 73), shapes=NOAP, api=None, in_file=False)
+
+
+def srp_subtlvs(w):
+    """RFC 9012 2 / RFC 9830 2.2: the sub-TLVs of the one SR Policy tunnel TLV (type 15) of the Tunnel Encapsulation attribute (23):
+    tunnel type (2) length (2); sub-TLV type (1), length 1 octet for types 0-127 and 2 octets for 128-255"""
+    x = w.need(23)
+    if len(x) < 4 or O.u16(x, 0) != 15 or O.u16(x, 2) != len(x) - 4:
+        raise O.Malformed('tunnel-encap-tlv')
+    out, i = [], 4
+    while i < len(x):
+        t = w.ctx.concretize(x[i]) if hasattr(w.ctx, 'concretize') else int(x[i])
+        if t < 128:
+            if i + 2 > len(x):
+                raise O.Malformed('tunnel-encap-sub-tlv')
+            n, i = w.ctx.concretize(x[i + 1]), i + 2
+        else:
+            if i + 3 > len(x):
+                raise O.Malformed('tunnel-encap-sub-tlv')
+            n, i = w.ctx.concretize(O.u16(x, i + 1)), i + 3
+        if i + n > len(x):
+            raise O.Malformed('tunnel-encap-sub-tlv-length')
+        out.append((t, x[i:i + n]))
+        i += n
+    return out
+
+
+def srp_one(w, t):
+    got = [v for k, v in srp_subtlvs(w) if k == t]
+    if len(got) != 1:
+        raise Missing('SR Policy sub-TLV %d sent %d times' % (t, len(got)))
+    return got[0]
+
+
+def srp_segments(w):
+    """RFC 9830 2.4.4: Segment List sub-TLV (128): reserved (1) then sub-TLVs type (1) length (1)"""
+    x = srp_one(w, 128)
+    if len(x) < 1:
+        raise O.Malformed('segment-list')
+    out, i = [], 1
+    while i < len(x):
+        if i + 2 > len(x) or i + 2 + w.ctx.concretize(x[i + 1]) > len(x):
+            raise O.Malformed('segment-list-sub-tlv')
+        n = w.ctx.concretize(x[i + 1])
+        out.append((w.ctx.concretize(x[i]), x[i + 2:i + 2 + n]))
+        i += 2 + n
+    return out
+
+
+def w_srp_nlri(w, v):  # RFC 9830 2.1: NLRI length in bits (96), distinguisher (4), color (4), endpoint (4)
+    x = w.mp_nlri(1, 73)
+    return [('.nlri-length', x[0], 96), ('.total', len(x), 13), ('distinguisher', O.u32(x, 1), v[0]), ('color', O.u32(x, 5), v[1]),
+            ('.endpoint', x[9:13], bytes([192, 0, 2, 1]))]
+
+
+def w_srp_preference_priority(w, v):  # RFC 9830 2.4.1 (type 12: flags, reserved, preference 4), 2.4.6 (type 15: priority 1, reserved 1)
+    a, b = srp_one(w, 12), srp_one(w, 15)
+    return [('.preference-length', len(a), 6), ('preference', O.u32(a, 2), v[0]), ('.priority-length', len(b), 2), ('priority', b[0], v[1])]
+
+
+def w_srp_binding_sid(w, v):  # RFC 9830 2.4.2: type 13, flags, reserved, 4-octet SID = label (20) TC (3) S (1) TTL (8)
+    a = srp_one(w, 13)
+    return [('.binding-sid-length', len(a), 6), ('label', O.u32(a, 2) // 4096, v[0])]
+
+
+def w_srp_segment_list(w, v):  # RFC 9830 2.4.4.1 (weight, type 9: flags, reserved, weight 4), 2.4.4.2.1 (segment type A, type 1: flags, reserved, label entry)
+    segs = srp_segments(w)
+    if [t for t, _ in segs] != [9, 1]:
+        raise Missing('segment list carries sub-TLVs %r' % ([t for t, _ in segs],))
+    return [('.weight-length', len(segs[0][1]), 6), ('weight', O.u32(segs[0][1], 2), v[0]), ('.segment-length', len(segs[1][1]), 6),
+            ('label', O.u32(segs[1][1], 2) // 4096, v[1])]
+
+
+def w_srp_type_c(w, v):  # RFC 9830 2.4.4.2.3: type 3: flags, SR algorithm (1), IPv4 node address (4), optional SR-MPLS SID (4)
+    segs = srp_segments(w)
+    if [t for t, _ in segs] != [9, 3]:
+        raise Missing('segment list carries sub-TLVs %r' % ([t for t, _ in segs],))
+    x = segs[1][1]
+    return [('.segment-length', len(x), 10), ('algorithm', x[1], v[0]), ('.node', x[2:6], bytes([10, 0, 0, 1])), ('sid', O.u32(x, 6) // 4096, v[1])]
+
+
+def w_srp_behavior(w, v):  # RFC 9830 2.4.4.2.2 / 2.4.4.2.4: type 13: flags, reserved, SRv6 SID (16), then behavior (2) reserved (2) LB LN Fun Arg lengths
+    segs = srp_segments(w)
+    if [t for t, _ in segs] != [9, 13]:
+        raise Missing('segment list carries sub-TLVs %r' % ([t for t, _ in segs],))
+    x = segs[1][1]
+    return [('.segment-length', len(x), 26), ('behavior', O.u16(x, 18), v[0]), ('locator-block', x[22], v[1]), ('locator-node', x[23], v[2]),
+            ('function', x[24], v[3]), ('argument', x[25], v[4])]
+
+
+def srv6_structure(v):
+    """RFC 9830 2.4.4.2.4: the four lengths are in bits of a 128-bit SID: their sum is at most 128"""
+    return s_and(in_range(v[0], (0, M16)), *([in_range(x, (0, 128)) for x in v[1:]] + [v[1] + v[2] + v[3] + v[4] <= 128]))
+
+
+case('srpolicy/distinguisher-color', 'sr-policy', lambda v: ['sr-policy', 'distinguisher', (v[0],), 'color', (v[1],), 'endpoint', '192.0.2.1', 'next-hop', '192.0.2.2'],
+     [('distinguisher', rng(0, M32)), ('color', rng(0, M32))], w_srp_nlri, **SRPK)
+case('srpolicy/preference-priority', 'sr-policy-preference', lambda v: SRP + ['preference', (v[0],), 'priority', (v[1],)],
+     [('preference', rng(0, M32)), ('priority', rng(0, 255))], w_srp_preference_priority, **SRPK)
+case('srpolicy/binding-sid', 'sr-policy-binding-sid', lambda v: SRP + ['binding-sid', 'mpls', (v[0],)], [('label', rng(0, M20))], w_srp_binding_sid, **SRPK)
+case('srpolicy/segment-list', 'sr-policy-segment-list', lambda v: SRP + ['segment-list', 'weight', (v[0],), 'segment', 'type-a', 'mpls', (v[1],)],
+     [('weight', rng(0, M32)), ('label', rng(0, M20))], w_srp_segment_list, **SRPK)
+case('srpolicy/type-c', 'sr-policy-type-c', lambda v: SRP + ['segment-list', 'weight', '1', 'segment', 'type-c', 'ipv4', '10.0.0.1', 'algorithm', (v[0],), 'sid', (v[1],)],
+     [('algorithm', rng(0, 255)), ('sid', rng(0, M20))], w_srp_type_c, quick=False, **SRPK)
+case('srpolicy/endpoint-behavior', 'sr-policy-endpoint-behavior',
+     lambda v: SRP + ['segment-list', 'weight', '1', 'segment', 'type-b', 'srv6', 'fc00::1', 'endpoint-behavior', (v[0],), (v[1],), (v[2],), (v[3],), (v[4],)],
+     [('behavior', rng(0, M16)), ('locator-block', rng(0, 128)), ('locator-node', rng(0, 128)), ('function', rng(0, 128)), ('argument', rng(0, 128))],
+     w_srp_behavior, rfc=srv6_structure, quick=False, **SRPK)
 
 case('vpls/endpoint-base-offset-size', 'vpls',
      lambda v: ['vpls', 'rd', '192.0.2.7:5', 'endpoint', (v[0],), 'base', (v[1],), 'offset', (v[2],), 'size', (v[3],), 'next-hop', '1.2.3.4'],
